@@ -6,6 +6,8 @@
 //! * [`keys`]  — the compiler's response key / emitted argument text, the runtime's key.
 //! * [`gen12`], [`c12`], [`parser_guard`] — the unit level of C12.
 //! * [`project`] — the project level of C12 over a compiler `MergedSelectionMap`.
+pub mod artifacts;
+pub mod c10;
 pub mod c12;
 pub mod gen12;
 pub mod keys;
@@ -13,3 +15,4 @@ pub mod model;
 pub mod node;
 pub mod parser_guard;
 pub mod project;
+pub mod respgen;
